@@ -106,6 +106,27 @@ func c10GeneratorsOnly(thorough bool, only int, inWorker bool) []c10Gen {
 	add(func() c10Gen { g := genC11Programs(thorough, inWorker); g.Light = !thorough; return g })
 	add(func() c10Gen { return genFeatures(thorough) })
 	add(func() c10Gen { g := genConstructs(thorough); g.Light = !thorough; return g })
+	// the valid-program families contributed by the other checks (declaration orders, shadowing, forward
+	// references, attribute orders, statement builtins, one-feature modules, many-type modules), the local-
+	// accumulator control-flow trees and the literal family: a crash on a valid program is also C10
+	add(func() c10Gen {
+		var fams []*wgen.Family
+		for _, f := range validExtra {
+			fam := f(thorough)
+			if !thorough && strings.HasPrefix(fam.Name, "F1s") {
+				continue // the one-feature and many-type modules are costly in five backends: thorough tier only
+			}
+			fams = append(fams, fam)
+		}
+		fams = append(fams, wgen.F1lit(), wgen.F2L(2, false))
+		if thorough {
+			fams = append(fams, wgen.F2L(3, false), wgen.F4c(true), wgen.F2Mini(5, 3))
+		}
+		g := genValid(fams, nil)
+		g.Name = "valid-programs-contributed"
+		g.Light = !thorough
+		return g
+	})
 	return gens
 }
 
